@@ -835,6 +835,10 @@ func (r *envelopingReader) Read(data []byte) (n int, err error) {
 	if len(data) > offset {
 		n, err = r.current.Read(data[offset:])
 	}
+	if offset > 0 && errors.Is(err, io.EOF) {
+		// the end of this (possibly empty) message is not the end of the stream
+		err = nil
+	}
 	return offset + n, err
 }
 
@@ -953,12 +957,12 @@ func (r *transformingReader) Read(data []byte) (n int, err error) {
 			offset = r.envRemain
 			r.envRemain = 0
 		}
-		var err error
 		if len(data) > offset && r.buffer != nil {
-			n, err = r.buffer.Read(data[offset:])
+			n, _ = r.buffer.Read(data[offset:])
 		}
 		if offset+n > 0 {
-			return offset + n, err
+			// an exhausted buffer (io.EOF) only ends this message, not the stream
+			return offset + n, nil
 		}
 
 		// If we get here, there was nothing in tr.buffer to read, so
